@@ -181,3 +181,130 @@ Theorem C13_address_v0_refuted :
   reg_address_v0 SBRM 18446744073709551615 4 = Panic /\ entry_addr_v0 (18446744073709551615 - 7) 1 = Panic.
 Proof. exact address_v0_refuted. Qed.
 Print Assumptions C13_address_v0_refuted.
+
+(* ---- TIE TO THE SOURCE CODE: the bit-level decoders, translated -------------------------------------------------
+   gen/DecodersSrc.v is regenerated on every run by tools/translate_decoders.py from cameleon/src/u3v/register_map.rs
+   (typed mini-Rust parser tools/minirust.py, debug-build semantics of lib/RustInt.v: a shift panics when the amount
+   is not below the width of the shifted type, overflow panics, checked_add reports it).  A translated getter src_<fn>
+   takes the u32 register word that `self.read_register(device, <mod>::<REG>)?` has returned; src_<fn>_map / src_<fn>_reg
+   are the impl block and the table constant of that read.  [u32 w] is 0 <= w < 2^32; statements without a range
+   hypothesis hold for every integer, in particular for every value of the Rust type.  proofs/P_C13s.v. *)
+From Cam Require Import DecodersSrc P_C13s.
+
+(* the five decoding getters read the register, and are paired with the decoder, that the model says *)
+Theorem C13_getters_from_source :
+  getter_desc GGencpVersion =
+    {| g_map := src_gencp_version_map; g_reg := src_gencp_version_reg; g_dec := DVer32; g_gate := None |} /\
+  getter_desc GU3vVersion =
+    {| g_map := src_u3v_version_map; g_reg := src_u3v_version_reg; g_dec := DVer32; g_gate := None |} /\
+  getter_desc GGenicamFileVersion =
+    {| g_map := src_genicam_file_version_map; g_reg := src_genicam_file_version_reg; g_dec := DFileVer; g_gate := None |} /\
+  getter_desc GPayloadSizeAlignment =
+    {| g_map := src_payload_size_alignment_map; g_reg := src_payload_size_alignment_reg; g_dec := DAlign; g_gate := None |} /\
+  getter_desc GIsStreamEnable =
+    {| g_map := src_is_stream_enable_map; g_reg := src_is_stream_enable_reg; g_dec := DBool0; g_gate := None |}.
+Proof. exact getters_from_source. Qed.
+Print Assumptions C13_getters_from_source.
+
+(* Abrm::gencp_version, Sbrm::u3v_version: 16-bit major / minor, and [decode DVer32] is the translated code applied to
+   the parsed word ([ver_val] reads the triple of semver::Version::new as a VVer) *)
+Theorem C13_version32_from_source :
+  (forall w, src_gencp_version w = Ok (Z.land (Z.shiftr w 16) 65535, Z.land w 65535, 0)) /\
+  (forall w, src_u3v_version w = Ok (Z.land (Z.shiftr w 16) 65535, Z.land w 65535, 0)) /\
+  (forall bs, decode DVer32 bs = let? w := parse_uint 4 bs in ver_val (src_gencp_version w)) /\
+  (forall bs, decode DVer32 bs = let? w := parse_uint 4 bs in ver_val (src_u3v_version w)).
+Proof. exact version32_from_source. Qed.
+Print Assumptions C13_version32_from_source.
+
+(* ManifestEntry::genicam_file_version: 8 / 8 / 16 bits *)
+Theorem C13_file_version_from_source :
+  (forall w, src_genicam_file_version w = Ok (Z.land (Z.shiftr w 24) 255, Z.land (Z.shiftr w 16) 255, Z.land w 65535)) /\
+  (forall bs, decode DFileVer bs = let? w := parse_uint 4 bs in ver_val (src_genicam_file_version w)).
+Proof. exact file_version_from_source. Qed.
+Print Assumptions C13_file_version_from_source.
+
+(* Sirm::payload_size_alignment: `si_info >> 24_i32` never panics on a u32, `1 << exp` is evaluated in usize only for
+   exp < 32, where it is 2^exp; an exponent of 32 or more is Err InvalidDevice - never a panic *)
+Theorem C13_alignment_from_source :
+  (forall w, u32 w -> src_payload_size_alignment w =
+     (if 32 <=? Z.shiftr w 24 then Err CE_INVALID_DEVICE else Ok (Z.shiftl 1 (Z.shiftr w 24)))) /\
+  (forall bs w, parse_uint 4 bs = Ok w -> u32 w -> decode DAlign bs = omap VInt (src_payload_size_alignment w)) /\
+  (forall bs, bytes_ok bs -> decode DAlign bs = let? w := parse_uint 4 bs in omap VInt (src_payload_size_alignment w)).
+Proof. exact alignment_from_source. Qed.
+Print Assumptions C13_alignment_from_source.
+
+(* Sirm::is_stream_enable *)
+Theorem C13_stream_enable_from_source :
+  (forall w, src_is_stream_enable w = Ok (Z.land w 1 =? 1)) /\
+  (forall bs, decode DBool0 bs = let? w := parse_uint 4 bs in omap VBool (src_is_stream_enable w)).
+Proof. exact stream_enable_from_source. Qed.
+Print Assumptions C13_stream_enable_from_source.
+
+(* GenICamFileInfo::{file_type, compression_type, schema_version}: [decode DFileInfo] is the three translated
+   functions applied to the parsed word *)
+Theorem C13_file_info_from_source :
+  (forall w, src_file_type w = enum2 (Z.land w 7)) /\
+  (forall w, src_compression_type w = enum2 (Z.land (Z.shiftr w 10) 63)) /\
+  (forall w, src_schema_version w = Ok (Z.land (Z.shiftr w 24) 255, Z.land (Z.shiftr w 16) 255, 0)) /\
+  (forall bs, decode DFileInfo bs = let? w := parse_uint 4 bs in file_info_val w).
+Proof. exact file_info_from_source. Qed.
+Print Assumptions C13_file_info_from_source.
+
+(* is_bit_set! / set_bit! / unset_bit! (bodies parsed and expanded by the translator) in DeviceConfiguration *)
+Theorem C13_config_from_source : forall w,
+  src_cfg_is_multi_event_enabled w = Ok (cfg_is_multi_event_enabled w) /\
+  src_cfg_set_multi_event_enable_bit w = Ok (cfg_set_multi_event_enable_bit w) /\
+  src_cfg_disable_multi_event w = Ok (cfg_disable_multi_event w).
+Proof. exact config_from_source. Qed.
+Print Assumptions C13_config_from_source.
+
+(* ... in DeviceCapability and U3VCapablitiy: the observers of the model, in the order of the harness *)
+Theorem C13_capability_from_source : forall c,
+  [src_devcap_is_user_defined_name_supported (c_cap c); src_devcap_is_family_name_supported (c_cap c);
+   src_devcap_is_multi_event_supported (c_cap c); src_devcap_is_stacked_commands_supported (c_cap c);
+   src_devcap_is_device_software_interface_version_supported (c_cap c)] = map Ok (device_capability_bits c) /\
+  [src_u3vcap_is_sirm_available (c_cap c); src_u3vcap_is_eirm_available (c_cap c);
+   src_u3vcap_is_iidc2_available (c_cap c)] = map Ok (u3v_capability_bits c).
+Proof. exact capability_from_source. Qed.
+Print Assumptions C13_capability_from_source.
+
+(* the capability gate of every optional register of the model is the value of one of these observers *)
+Theorem C13_gates_from_source : forall w,
+  (forall g b, In g [GUserDefinedName; GFamilyName; GDeviceSoftwareInterfaceVersion] ->
+     g_gate (getter_desc g) = Some b ->
+     In (Ok (bit_set w b)) [src_devcap_is_user_defined_name_supported w; src_devcap_is_family_name_supported w;
+                            src_devcap_is_device_software_interface_version_supported w]) /\
+  (forall g b, In g [GSirmAddress; GSirmLength; GEirmAddress; GEirmLength; GIidc2Address] ->
+     g_gate (getter_desc g) = Some b ->
+     In (Ok (bit_set w b)) [src_u3vcap_is_sirm_available w; src_u3vcap_is_eirm_available w;
+                            src_u3vcap_is_iidc2_available w]).
+Proof. exact gates_from_source. Qed.
+Print Assumptions C13_gates_from_source.
+
+(* fn register_address (checked_add + ok_or_else) and which read_register helper goes through it: Abrm's passes the
+   table offset as the address, the other four add their base address *)
+Theorem C13_register_address_from_source : forall m base off,
+  reg_address m base off = if src_adds_base m then src_register_address base off else Ok off.
+Proof. exact register_address_from_source. Qed.
+Print Assumptions C13_register_address_from_source.
+
+(* ParseBytes for u3v::BusSpeed: one-hot encodings only *)
+Theorem C13_bus_speed_from_source :
+  (forall w, src_bus_speed w = if w =? 1 then Ok 0 else if w =? 2 then Ok 1 else if w =? 4 then Ok 2
+                               else if w =? 8 then Ok 3 else if w =? 16 then Ok 4 else Err CE_INVALID_DEVICE) /\
+  (forall bs, decode DSpeed bs = let? w := parse_uint 4 bs in omap VSpeed (src_bus_speed w)).
+Proof. exact bus_speed_from_source. Qed.
+Print Assumptions C13_bus_speed_from_source.
+
+(* non-vacuity: the translated functions on concrete words *)
+Theorem C13_source_examples :
+  src_gencp_version 65537 = Ok (1, 1, 0) /\ src_gencp_version 4294901761 = Ok (65535, 1, 0) /\
+  src_genicam_file_version 16909060 = Ok (1, 2, 772) /\
+  src_payload_size_alignment (31 * 2 ^ 24 + 5) = Ok (2 ^ 31) /\ src_payload_size_alignment (32 * 2 ^ 24) = Err CE_INVALID_DEVICE /\
+  src_is_stream_enable 3 = Ok true /\ src_is_stream_enable 2 = Ok false /\
+  src_file_type 1 = Ok 1 /\ src_file_type 2 = Err CE_INVALID_DEVICE /\ src_compression_type 1024 = Ok 1 /\
+  src_cfg_set_multi_event_enable_bit 0 = Ok 2 /\ src_cfg_disable_multi_event 7 = Ok 5 /\
+  src_register_address (2 ^ 64 - 1) 1 = Err CE_INVALID_DEVICE /\ src_register_address (2 ^ 64 - 2) 1 = Ok (2 ^ 64 - 1) /\
+  src_bus_speed 8 = Ok 3 /\ src_bus_speed 3 = Err CE_INVALID_DEVICE.
+Proof. exact decoders_examples. Qed.
+Print Assumptions C13_source_examples.
